@@ -400,6 +400,11 @@ def _solve_one(eng, ob, idx, level, timeout_ms, seed, use_cvc5, cvc5_timeout_s):
     log = pre_log + log
     if res in ("unknown", "error") and cand_model is not None:
         res, model, backend = "sat-core", cand_model, "z3-smt(model of a cone-of-influence subset; candidate only)"
+    if res == "sat" and mode == "prove" and _PARTIAL_UF.search(smt_core or ""):
+        # the VC mentions mathematical functions that are only partially axiomatised (sums, powers, logarithms,
+        # trigonometric functions, arcsin, angle): a model may give them impossible values, so it is a candidate
+        # to be replayed on the real code, never a refutation by itself
+        res, backend = "sat-core", backend + " [model of a VC with partially axiomatised functions: candidate only]"
     r = dict(status=res, backend=backend if res in ("unsat", "sat", "sat-core") else "z3", time=t, model=model, reason=backend, log=log, prep=prep)
     if mode == "prove" and (res in ("unknown", "error", "sat-core") or use_cvc5 == "all") and use_cvc5:
         cres, ct, err = run_cvc5(smt_core, cvc5_timeout_s)
@@ -415,6 +420,11 @@ def _solve_one(eng, ob, idx, level, timeout_ms, seed, use_cvc5, cvc5_timeout_s):
         r["smt_full"] = smt_full
         r["smt_core"] = smt_core
     return idx, r
+
+
+import re as _re
+
+_PARTIAL_UF = _re.compile(r"\(\|?(Sum_[0-9a-f]+(\.re|\.im)?|pow|exp|ln|log10|arcsin|angle_[a-z]+|angle|cosn|sinn)\|? ")
 
 
 def _pool_worker(wid, task_q, res_q):
